@@ -8,7 +8,7 @@ namespace sim { namespace kern {
 
 enum CallId { SC_SEM_OPEN, SC_SEM_CLOSE, SC_SEM_UNLINK, SC_SEM_WAIT, SC_SEM_POST, SC_SHM_OPEN, SC_SHM_UNLINK, SC_FTRUNCATE, SC_FSTAT,
               SC_MMAP, SC_MUNMAP, SC_CLOSE, SC_NANOSLEEP, SC_SOCKET, SC_BIND, SC_LISTEN, SC_ACCEPT, SC_CONNECT, SC_SEND, SC_SENDTO, SC_RECV,
-              SC_RECVFROM, SC_POLL, SC_SHUTDOWN, SC_GETSOCKOPT, SC_SETSOCKOPT, SC_GETSOCKNAME, SC_GETPEERNAME, SC_FCNTL, SC_OPEN, SC_FOPEN, SC_OPENDIR, SC_DLOPEN, SC_PTHREAD_CREATE, SC_KEY_CREATE, SC_COUNT };
+              SC_RECVFROM, SC_POLL, SC_SHUTDOWN, SC_GETSOCKOPT, SC_SETSOCKOPT, SC_GETSOCKNAME, SC_GETPEERNAME, SC_FCNTL, SC_OPEN, SC_FOPEN, SC_OPENDIR, SC_DLOPEN, SC_PTHREAD_CREATE, SC_KEY_CREATE, SC_GETADDRINFO, SC_COUNT };
 extern const char *call_names[SC_COUNT];
 
 void run_begin();
